@@ -71,7 +71,7 @@ def run_wire_property(prop, tier, rule, level="exploration", extra=None):
             log("NOTE this run also found violations of %s (reported by their own checks)" % ",".join(sorted(others)))
         more = extra(s, h, v, tier) if extra else {}
         cs = None
-        if prop in ("C01", "C03", "C05"):
+        if prop in ("C01", "C02", "C03", "C05"):
             # the codec used more than once: every history of calls (some made to fail, some results kept) - CodecSeq.tla
             cs = codecseq.run_codecseq(s, h, tier, prop)
             for x in cs["violations"]:
